@@ -16,6 +16,7 @@ mod utf8rx;
 mod c17;
 mod c18;
 mod c19;
+mod c20;
 mod engine;
 mod model;
 mod report;
@@ -132,6 +133,13 @@ fn props() -> Vec<Prop> {
         gen: c19::gen_case,
         run: c19::run_case,
     }, Prop {
+        id: "C20",
+        rule: "case = one batch of inputs for a child process (time limit, 6 GB address space, 64 MB stack), run in two build profiles; inputs: random bytes as Lark / JSON schema / regex / slice list / tokenizer.json, byte-level mutations of a corpus, adversarial nesting and sizes (deep parentheses, huge counts, multipleOf combinations, i64 extremes, $ref cycles, malformed byte-fallback names), valid corpus entries; each built engine then gets a seeded script of legal and illegal calls under default or tight limits; distinct non-trivial = distinct inputs that either built an engine or were rejected with an error",
+        quick_cases: 16,
+        thorough_cases: 400,
+        gen: c20::gen_case,
+        run: c20::run_case,
+    }, Prop {
         id: "C17",
         rule: "case = (corpus grammar, synthetic vocabulary sized around a multiple of 32, random history); every step compares C and Rust APIs and runs llg_par_compute_mask for every destination length 0..mask+3 and three longer ones; distinct non-trivial = distinct (grammar, vocab size, mask words) triples with an engine mask",
         quick_cases: 24,
@@ -146,6 +154,10 @@ fn main() {
     if args.len() < 2 {
         eprintln!("usage: llgv <PROP> [--tier quick|thorough] [--seed N] [--out FILE] [--model EXE] [--replay FILE]");
         std::process::exit(2);
+    }
+    if args[1] == "c20child" {
+        c20::child_main(&args[2], &args[3]);
+        return;
     }
     if args[1] == "probe19" {
         let mut words: Vec<Vec<u8>> = (0..=255u8).map(|x| vec![x]).collect();
